@@ -380,6 +380,19 @@ def extras(ctx):
                     continue
                 if back is not member:
                     ctx.violation(f"enum over numbers {member!r}: lexical form {raw!r} of its value gives {back!r}", {"enum": repr(member), "literal": raw})
+    # SEVERAL enumerations in one candidate list (a union of enumerations): each is asked in the documented order, the first
+    # that holds the value wins, a string candidate at the end takes what none of them holds
+    for lex, types, want in (("7", [Zf, Zi], Zi.SEVEN), ("0.5", [Zi, Zf], Zf.HALF), ("0", [Zf, Zi], Zf.ZERO), ("0", [Zi, Zf], Zi.ZERO),
+                             ("7", [Zf, Zi, str], Zi.SEVEN), ("nine", [Zf, Zi, str], "nine"), ("1e3", [Zi, Color, Zf], Zf.BIG),
+                             ("red", [Zi, Zf, Color], Color.RED) if hasattr(Color, "RED") else ("7", [Zi], Zi.SEVEN)):
+        ctx.case(("enum-candidates", lex, tuple(t.__name__ for t in types)))
+        try:
+            back = converter.deserialize(lex, types)
+        except Exception as ex:  # noqa: BLE001
+            ctx.violation(f"candidate list {[t.__name__ for t in types]}: {lex!r} is refused: {type(ex).__name__}: {ex}", {"literal": lex})
+            continue
+        if back is not want and back != want:
+            ctx.violation(f"candidate list {[t.__name__ for t in types]}: {lex!r} gives {back!r}, the first candidate that holds the value gives {want!r}", {"literal": lex})
     # enums whose members need the keyword arguments of the member converter: a QName member written with a PREFIX
     # (resolved through the prefix map), a bytes member in base16 / base64
     for member in QE:
